@@ -376,7 +376,7 @@ def make_machine(gen: int, stats: Stats):
                 self._do(["send", batch])
 
         @rule(how=st.sampled_from(["eof", "reset"]),
-              script=st.lists(st.tuples(st.sampled_from(["refuse", "refuse", "accept", "timeout"]), st.sampled_from(LAT)).map(list),
+              script=st.lists(st.tuples(st.sampled_from(["refuse", "refuse", "accept", "timeout", "unreachable"]), st.sampled_from(LAT)).map(list),
                               min_size=0, max_size=3))
         def link_down(self, how, script):
             if script:
